@@ -48,7 +48,7 @@ pub struct C06 {
 // ---------------------------------------------------------------------------------------------------
 
 pub const KINDS: [&str; 7] = ["cw-rect", "ccw-rect", "L", "triangle", "box", "path", "right-trapezoid"];
-const KIND_TAGS: [&str; 9] = ["kind:cw-rect", "kind:ccw-rect", "kind:L", "kind:triangle", "kind:box", "kind:path", "kind:right-trapezoid", "kind:all", "kind:diagonal-path"];
+const KIND_TAGS: [&str; 11] = ["kind:cw-rect", "kind:ccw-rect", "kind:L", "kind:triangle", "kind:box", "kind:path", "kind:right-trapezoid", "kind:all", "kind:diagonal-path", "kind:path-width-3", "kind:path-width-1"];
 const ORIENT_TAGS_S: [&str; 8] = ["sref:R0", "sref:R90", "sref:R180", "sref:R270", "sref:MX", "sref:MX-R90", "sref:MX-R180", "sref:MX-R270"];
 const ORIENT_TAGS_A: [&str; 8] = ["aref:R0", "aref:R90", "aref:R180", "aref:R270", "aref:MX", "aref:MX-R90", "aref:MX-R180", "aref:MX-R270"];
 const LATTICE_TAGS: [&str; 5] = ["lattice:axis", "lattice:rotated-with-angle", "lattice:negative-pitch", "lattice:skew", "lattice:cols-along-y"];
@@ -81,6 +81,8 @@ fn shape_elem(kind: usize, layer: i16, dt: i16, off: (i32, i32)) -> GdsElement {
         5 => GdsPath { layer, datatype: dt, width: Some(4), xy: [(10, 5), (50, 5), (50, 35)].iter().map(|p| gp((p.0 + off.0, p.1 + off.1))).collect(), ..Default::default() }.into(),
         // a 4-vertex boundary that is NOT a rectangle: three of its four sides are axis-parallel
         6 => GdsBoundary { layer, datatype: dt, xy: closed(&[(10, 5), (40, 5), (40, 25), (20, 25)], off), ..Default::default() }.into(),
+        9 => GdsPath { layer, datatype: dt, width: Some(3), xy: [(10, 5), (50, 5), (50, 35), (20, 35)].iter().map(|p| gp((p.0 + off.0, p.1 + off.1))).collect(), ..Default::default() }.into(),
+        10 => GdsPath { layer, datatype: dt, width: Some(1), xy: [(10, 5), (10, 45), (40, 45)].iter().map(|p| gp((p.0 + off.0, p.1 + off.1))).collect(), ..Default::default() }.into(),
         8 => GdsPath { layer, datatype: dt, width: Some(4), xy: [(10, 5), (40, 35)].iter().map(|p| gp((p.0 + off.0, p.1 + off.1))).collect(), ..Default::default() }.into(),
         _ => panic!("MACHINERY: C06 bad shape kind {kind}"),
     }
@@ -278,6 +280,14 @@ impl C06 {
         };
         tags.push(KIND_TAGS[content]);
         leaf_content(content, &mut structs[d - 1].elems);
+        // data types beyond one byte next to small ones ((1,0) / (1,256), (3,44) / (2,300), (0,256)): every pair stays
+        // on its own (layer, datatype)
+        if !large && c.cost(2, "datatypes-beyond-255") == 1 {
+            tags.push("hier:datatypes-beyond-255");
+            for (k, (l, dt)) in [(1i16, 0i16), (1, 256), (3, 44), (2, 300), (0, 256), (1, -1)].iter().enumerate() {
+                structs[d - 1].elems.push(shape_elem(k % 2, *l, *dt, (3000 + 100 * k as i32, 0)));
+            }
+        }
         // optional label inside the leaf's shape (nets are judged per un-flattened cell)
         if content < 7 && c.cost(2, "leaf-label") == 1 {
             structs[d - 1].elems.push(text(7, "LeafNet", label_points(content)[0]));
@@ -370,7 +380,8 @@ impl C06 {
     /// coordinates (each coordinate and its neighbours at -3..=3, the midpoints between consecutive ones):
     /// on, next to and far from every edge and every *extended* edge line, inside and outside the bounding box.
     fn gen_grid(&self, _t: Tier, c: &mut Chooser) -> Case {
-        let kind = c.free(7, "shape-kind");
+        // the seven kinds of the label part plus paths of odd width (3, three segments) and of width 1
+        let kind = [0usize, 1, 2, 3, 4, 5, 6, 9, 10][c.free(9, "shape-kind")];
         let start_vertex = c.free(4, "start-vertex");
         let reverse = c.free(2, "reverse-direction") == 1;
         let e = shape_elem(kind, 7, 3, (0, 0));
@@ -768,7 +779,7 @@ impl CaseDriver for C06 {
     fn describe(&self, tier: Tier) -> Describe {
         let rule = match self.part {
             Part::Hier => format!(
-                "GDS libraries of 1..3 levels (chain top -> ... -> leaf, optionally the top also placing the leaf), structs listed in every order; each reference SREF or AREF x all 8 Manhattan orientations (free); leaf content = one of {KINDS:?} or all seven together (free); costed (deviation bound {}): STRANS spelling (absent / explicit Some(0.0) / present-but-default / the same rotation as a negative angle 90q-360 / beyond one turn 90q+360), offsets {LOCS:?}, array cols x rows in {{1,2,3}}^2, lattice (axis-parallel, rotated with the angle, negative pitch, skewed, columns along y), large arrays 181x181 / 200x200 / 1x32767 / 32767x1 (two-level libraries only), a label inside the leaf shape, a level holding nothing but its reference (no shapes of its own). Non-trivial = has at least one reference.",
+                "GDS libraries of 1..3 levels (chain top -> ... -> leaf, optionally the top also placing the leaf), structs listed in every order; each reference SREF or AREF x all 8 Manhattan orientations (free); leaf content = one of {KINDS:?} or all seven together (free); costed (deviation bound {}): STRANS spelling (absent / explicit Some(0.0) / present-but-default / the same rotation as a negative angle 90q-360 / beyond one turn 90q+360), offsets {LOCS:?}, array cols x rows in {{1,2,3}}^2, lattice (axis-parallel, rotated with the angle, negative pitch, skewed, columns along y), large arrays 181x181 / 200x200 / 1x32767 / 32767x1 (two-level libraries only), a label inside the leaf shape, a level holding nothing but its reference (no shapes of its own), leaf shapes on (layer, datatype) pairs with data types of 256 / 300 / -1 next to small ones. Non-trivial = has at least one reference.",
                 self.bound(tier)
             ),
             Part::Deep => "4-level chains, structs in every one of the 24 listing orders, every reference SREF or AREF x 8 orientations (free), leaf content CW rectangle or L-polygon; the costed alphabet of [hier] with deviation bound 1.".into(),
@@ -776,7 +787,7 @@ impl CaseDriver for C06 {
                 "one cell: shape kind (7) x label position {{inside, on an edge, on a vertex, just outside, far outside}} x vertex list started at each of 4 vertices x both directions (paths: drawn from either end) x label on the same / another layer x second shape {{none, same layer overlapping, other layer, same layer other datatype}} x second label {{none, same point listed before, same point listed after, inside with another string}} (all free); costed (bound {}): strings (mixed / upper / single-letter case pairs), element order (shapes first, labels first, interleaved), a diagonal path on the labels' layer. Non-trivial = every case (each has a label).",
                 self.bound(tier)
             ),
-            Part::Grid => "one cell holding one shape (each of the 7 kinds, vertex list started at each of 4 vertices, both directions) and one same-layer label at every point of the lattice spanned by the shape's vertex coordinates: every vertex x / y and its neighbours at -3..=3, plus the midpoints between consecutive ones - on, next to and away from every edge and every extended edge line, inside and outside the bounding box (paths: the points whose membership the statement fixes). All free (no deviation bound).".into(),
+            Part::Grid => "one cell holding one shape (each of the 7 kinds plus a three-segment path of width 3 and a path of width 1, vertex list started at each of 4 vertices, both directions) and one same-layer label at every point of the lattice spanned by the shape's vertex coordinates: every vertex x / y and its neighbours at -3..=3, plus the midpoints between consecutive ones - on, next to and away from every edge and every extended edge line, inside and outside the bounding box (paths: the points whose membership the statement fixes). All free (no deviation bound).".into(),
             Part::Mal => "malformed libraries: dangling SREF / AREF, self-reference by SREF / AREF, 2-cycle, 3-cycle (through an AREF), cols = 0, rows = 0, boundary with empty xy, path with empty xy (required outcome: Err), plus boundary not closed, path without width, SREF abs_mag, AREF abs_angle (Err expected and the only outcome judged); each as the whole library and below a well-formed top cell; every listing order (quick: cyclic libraries in every rotation).".into(),
         };
         Describe {
@@ -965,7 +976,7 @@ impl CaseDriver for C06 {
                 require_tags(stats, &LATTICE_TAGS)?;
                 require_tags(stats, &BIG_TAGS)?;
                 require_tags(stats, &SPELL_TAGS)?;
-                require_tags(stats, &["levels:1", "levels:2", "levels:3", "hier:leaf-label", "hier:shared-leaf", "hier:wrapper-level"])?;
+                require_tags(stats, &["levels:1", "levels:2", "levels:3", "hier:leaf-label", "hier:shared-leaf", "hier:wrapper-level", "hier:datatypes-beyond-255"])?;
                 require_outcomes(stats, &["ok"])?;
                 let ok = stats.outcomes.get("ok").copied().unwrap_or(0);
                 let err = stats.outcomes.get("err-on-wellformed").copied().unwrap_or(0);
